@@ -53,6 +53,18 @@ def _runner_init(self: Any, *a: Any, **kw: Any) -> None:
 
 _cl._ControlLoopRunner.__init__ = _runner_init  # type: ignore[method-assign]
 
+_orig_process_tick = _cl._ControlLoopRunner._process_tick
+
+
+async def _process_tick(self: Any, tick: Any) -> Any:
+    if _H is not None:
+        _H.pre_state = self.state  # state object before the reducer runs (never mutated afterwards)
+        _H.pre_runner = self
+    return await _orig_process_tick(self, tick)
+
+
+_cl._ControlLoopRunner._process_tick = _process_tick  # type: ignore[method-assign]
+
 
 # --- monitor decorators ---------------------------------------------------------------
 class MonInternalAdapter(BaseInternalRunAdapterDecorator):
@@ -162,6 +174,8 @@ class Harness:
         self.script_pos: list[int] = []
         self.actions_done = 0
         self.trace: list[str] = []
+        self.pre_state: Any = None
+        self.pre_runner: Any = None
 
     # -- body tracking
     def enter(self, step_name: str, ev: Any, ctx: Any = None) -> Invocation:
